@@ -188,10 +188,12 @@ struct Snap { std::vector<std::string> v; };   // one rendering per listed prope
 static bool operator==(const Snap &a, const Snap &b) { return a.v == b.v; }
 
 // ------------------------------------------------------------------ value alphabet
-enum VCls { V_EMPTY, V_NUM, V_NUMX, V_FRAC, V_TEXT, V_LONG, V_COLOUR, V_POINT, V_TINT, V_TFLT, V_TCHR, V_TCOL, V_TPT, V_TLAT, V_TSTR, NVCLS };
+enum VCls { V_EMPTY, V_NUM, V_NUMX, V_FRAC, V_TEXT, V_LONG, V_COLOUR, V_POINT, V_TINT, V_TFLT, V_TCHR, V_TCOL, V_TPT, V_TLAT, V_TSTR, V_NOTEXT, V_OWNTAIL, NVCLS };
 // signature argument class: coarse (how the value is delivered), the detail line carries the value itself
-static const char *vclsname[] = { "empty-text", "text", "text", "text", "text", "text", "text", "text", "typed", "typed", "typed", "typed", "typed", "typed", "typed" };
+static const char *vclsname[] = { "empty-text", "text", "text", "text", "text", "text", "text", "text", "typed", "typed", "typed", "typed", "typed", "typed", "typed", "no-text", "own-text" };
 struct Val { int cls; const char *txt; char ty; const void *ptr; };   // txt != 0: string delivery ; else typed value
+// ty '0': the string interface with no text at all (NULL), what mpt_object_set_property() passes for an empty node value
+// ty 'T': (const char *) pointing one character into the property's own current string (string properties only)
 static std::string X300(300, 'x');
 static const int32_t i0 = 0, i5 = 5, im1 = -1, i255 = 255, i256 = 256, i70000 = 70000, i120 = 120;
 static const uint8_t y7 = 7; static const uint32_t u100000 = 100000; static const int64_t x5 = 5;
@@ -223,16 +225,18 @@ static void build_vals()
 	T(V_TCOL, 'C', &tblack); T(V_TCOL, 'C', &tblack_fe); T(V_TCOL, 'C', &tclear); T(V_TCOL, 'C', &tclear_01);
 	T(V_TCOL, 'C', &tcol); T(V_TPT, 'P', &tpt); T(V_TPT, 'P', &tpt2); T(V_TLAT, 'L', &tlat);
 	T(V_TSTR, 's', &tstr); T(V_TSTR, 's', &tstrnum);
+	T(V_NOTEXT, '0', 0); T(V_OWNTAIL, 'T', 0);
 	// reduced alphabet for secondary names (case variants, prefixes, aliases)
 	for (const Val &v : vals) {
 		if (v.txt && (!strcmp(v.txt, "1") || !strcmp(v.txt, "abc") || !strcmp(v.txt, "red") || !strcmp(v.txt, "0.25 0.75") || !strcmp(v.txt, "#11223344") || !strcmp(v.txt, "256"))) vals_small.push_back(v);
-		if (!v.txt && (v.ptr == &i5 || v.ptr == &tcol)) vals_small.push_back(v);
+		if (!v.txt && (v.ptr == &i5 || v.ptr == &tcol || v.ty == '0')) vals_small.push_back(v);
 	}
 }
 static std::string valdesc(const Val &v)
 {
 	if (v.txt) return strlen(v.txt) > 40 ? fmt("text(%zu x 'x')", strlen(v.txt)) : std::string("text \"") + v.txt + "\"";
 	switch (v.ty) {
+	case '0': return "text NULL (no value)"; case 'T': return "const char * into the property's own string (+1)";
 	case 'i': return fmt("int32 %d", *(const int32_t *) v.ptr); case 'y': return fmt("uint8 %u", *(const uint8_t *) v.ptr);
 	case 'u': return fmt("uint32 %u", *(const uint32_t *) v.ptr); case 'x': return fmt("int64 %lld", (long long) *(const int64_t *) v.ptr);
 	case 'd': return fmt("double %g", *(const double *) v.ptr); case 'f': return fmt("float %g", (double) *(const float *) v.ptr);
@@ -242,11 +246,24 @@ static std::string valdesc(const Val &v)
 	}
 	return "?";
 }
-static int deliver(Inst &x, const char *name, const Val &v)
+static const char *own_string(Inst &x, int pos)
+{
+	if (pos < 0) return 0;
+	mpt::property pr; pr.name = 0; pr.desc = (const char *) (uintptr_t) pos; pr.val._addr = 0; pr.val._type = 0;
+	if (x.obj->property(&pr) < 0 || pr.val._type != 's' || !pr.val._addr) return 0;
+	return *(const char * const *) pr.val._addr;
+}
+static int deliver(Inst &x, const char *name, const Val &v, int pos = -1)
 {
 	Lib l;
 	if (v.txt) return mpt::mpt_object_set_string(x.obj, name, v.txt, 0);
+	if (v.ty == '0') return mpt::mpt_object_set_string(x.obj, name, 0, 0);
 	mpt::value val; int type = v.ty;
+	if (v.ty == 'T') {       // the tail of the current value; without a current value of >= 2 characters an ordinary string
+		const char *cur = own_string(x, pos), *ptr = (cur && strlen(cur) >= 2) ? cur + 1 : tstr;
+		val._type = 's'; val._addr = &ptr;
+		return mpt::mpt_object_set_value(x.obj, name, &val);
+	}
 	if (v.ty == 'C') type = mpt::mpt_color_typeid(); else if (v.ty == 'P') type = mpt::mpt_fpoint_typeid(); else if (v.ty == 'L') type = mpt::mpt_lattr_typeid();
 	val._type = type; val._addr = v.ptr;
 	return mpt::mpt_object_set_value(x.obj, name, &val);
@@ -335,13 +352,13 @@ static int refconv(const std::string &tcls, const Val &v, std::string &out)
 }
 
 // ------------------------------------------------------------------ model of one target: discovered properties, ops, fresh-object results
-enum OpT { O_SET, O_RESET, O_RESETALL, O_RESETNULL, O_COPYIN, O_AUTO };
+enum OpT { O_SET, O_RESET, O_RESETALL, O_RESETNULL, O_COPYIN, O_AUTO, O_NOVALALL, O_COPYSELF, O_ASSIGNSELF };
 struct Op { int t; int name; int val; int sib; bool nullname; };
 struct NameEnt { std::string n; int target; int cls; };   // target: listed property index or -1 ; cls 0 primary 1 case 2 prefix 3 alias
 static const char *nclsname[] = { "name", "case-variant", "prefix", "alias" };
 struct Fresh { int ret; Snap after; std::string fault; };   // fault: non-empty when the op kills the process on a fresh object
 
-static std::string op_label(const Op &o) { return o.t == O_SET ? "set" : (o.t == O_RESET ? "reset" : (o.t == O_RESETALL || o.t == O_RESETNULL ? "reset-all" : (o.t == O_COPYIN ? "copy" : "auto-select"))); }
+static std::string op_label(const Op &o) { return o.t == O_SET ? "set" : (o.t == O_RESET ? "reset" : (o.t == O_RESETALL || o.t == O_RESETNULL ? "reset-all" : (o.t == O_COPYIN ? "copy" : (o.t == O_NOVALALL ? "reset-all" : (o.t == O_COPYSELF || o.t == O_ASSIGNSELF ? "copy-self" : "auto-select"))))); }
 
 struct Model {
 	int kind; bool cxx;
@@ -393,7 +410,18 @@ struct Model {
 	int raw_op(Inst &x, const Op &o, Snap *sibsnap = 0) const
 	{
 		switch (o.t) {
-		case O_SET: return deliver(x, names[o.name].n.c_str(), names[o.name].cls ? vals_small[o.val] : mvals[o.val]);
+		case O_SET: return deliver(x, names[o.name].n.c_str(), names[o.name].cls ? vals_small[o.val] : mvals[o.val], names[o.name].target >= 0 ? ppos[names[o.name].target] : -1);
+		case O_NOVALALL: { Lib l; return mpt::mpt_object_set_string(x.obj, "", o.val ? "" : 0, 0); }
+		case O_COPYSELF: { Lib l; return x.obj->set_property(o.nullname ? 0 : "", x.conv()); }
+		case O_ASSIGNSELF: { Lib l;
+			switch (kind) {      // C++ assignment operator of the data struct, source is the object itself
+			case AXIS: { mpt::axis &a = *(mpt::axis *) x.raw, &b = a; a = b; break; }
+			case TEXT: { mpt::text &a = *(mpt::text *) x.raw, &b = a; a = b; break; }
+			case GRAPH: { mpt::graph &a = *(mpt::graph *) x.raw, &b = a; a = b; break; }
+			case WORLD: { mpt::world &a = *(mpt::world *) x.raw, &b = a; a = b; break; }
+			default: { mpt::line &a = *(mpt::line *) x.raw, &b = a; a = b; break; }
+			}
+			return 0; }
 		case O_RESET: { Lib l; return x.obj->set_property(names[o.name].n.c_str(), 0); }
 		case O_RESETALL: { Lib l; return x.obj->set_property("", 0); }
 		case O_RESETNULL: { Lib l; return x.obj->set_property(0, 0); }
@@ -416,6 +444,9 @@ struct Model {
 		case O_RESET: return "reset(\"" + names[o.name].n + "\")";
 		case O_RESETALL: return "set(\"\", NULL)";
 		case O_RESETNULL: return "set(NULL, NULL)";
+		case O_NOVALALL: return o.val ? "set(\"\", text \"\")" : "set(\"\", text NULL (no value))";
+		case O_COPYSELF: return std::string("set(") + (o.nullname ? "NULL" : "\"\"") + ", the object itself)";
+		case O_ASSIGNSELF: return "object = object (C++ operator= of the data struct)";
 		case O_AUTO: return "set(NULL, " + valdesc(autovals[o.val]) + ")";
 		case O_COPYIN: return std::string("set(") + (o.nullname ? "NULL" : "\"\"") + ", " + (o.sib ? "sibling with every property set" : "default sibling") + ") ; destroy sibling";
 		}
@@ -529,11 +560,17 @@ struct Model {
 		// ops
 		for (size_t n = 0; n < names.size(); ++n) {
 			size_t nv = names[n].cls ? vals_small.size() : mvals.size();
-			for (size_t v = 0; v < nv; ++v) ops.push_back(Op{O_SET, (int) n, (int) v, 0, false});
+			for (size_t v = 0; v < nv; ++v) {
+				if (!names[n].cls && mvals[v].ty == 'T' && def.v[names[n].target].compare(0, 2, "s:")) continue;   // own-text value: string properties only
+				ops.push_back(Op{O_SET, (int) n, (int) v, 0, false});
+			}
 		}
 		for (size_t n = 0; n < names.size(); ++n) ops.push_back(Op{O_RESET, (int) n, 0, 0, false});
 		ops.push_back(Op{O_RESETALL, 0, 0, 0, false});
 		ops.push_back(Op{O_RESETNULL, 0, 0, 0, true});
+		ops.push_back(Op{O_NOVALALL, 0, 0, 0, false}); ops.push_back(Op{O_NOVALALL, 0, 1, 0, false});
+		ops.push_back(Op{O_COPYSELF, 0, 0, 0, false}); ops.push_back(Op{O_COPYSELF, 0, 0, 0, true});
+		if (cxx) ops.push_back(Op{O_ASSIGNSELF, 0, 0, 0, false});
 		for (int sib = 0; sib < 2; ++sib) for (int nn = 0; nn < 2; ++nn) ops.push_back(Op{O_COPYIN, 0, 0, sib, nn == 1});
 		for (const Val &v : vals) if (v.txt ? (!strcmp(v.txt, "abc") || !strcmp(v.txt, "red") || !strcmp(v.txt, "")) : (v.ty == 'C' || v.ty == 'L' || v.ptr == &i5)) autovals.push_back(v);
 		for (size_t v = 0; v < autovals.size(); ++v) ops.push_back(Op{O_AUTO, 0, (int) v, 0, true});
@@ -586,6 +623,21 @@ static std::string diffdesc(const Model &m, const Snap &a, const Snap &b)
 	return s.empty() ? " (no property differs)" : s;
 }
 
+// a name the setter accepted (case variant, prefix, alias) and that changed listed property q: reading under the same name
+// must not yield a DIFFERENT listed property (a refusal, or a component like text "x", is not flagged)
+template <class Fail>
+static bool alias_reads_back(Run &r, const Model &m, Inst &x, const std::string &name, int q, const Snap &after, Fail &fail)
+{
+	mpt::property pr; pr.name = name.c_str(); pr.desc = 0; pr.val._addr = 0; pr.val._type = 0;
+	int ret = x.obj->property(&pr);
+	if (ret < 0 || !pr.name) { r.count("accepted alias refused by get (not flagged)"); return true; }
+	int which = -1; for (size_t i = 0; i < m.pname.size(); ++i) if (m.pname[i] == pr.name) which = (int) i;
+	if (which < 0) { r.count("accepted alias reads a component (not flagged)"); return true; }
+	if (which != q) { fail("reads-other-property", "set changed '" + m.pname[q] + "' (" + after.v[q] + ") but get(\"" + name + "\") yields '" + pr.name + "' = " + render(pr.val._type, pr.val._addr)); return false; }
+	r.count("accepted alias reads back the property it set");
+	return true;
+}
+
 // execute op o on x (pre-state snapshot `before`), judge it; false when a violation was reported
 static bool judged_op(Run &r, const Model &m, Inst &x, size_t opi, const Snap &before, const std::string &cbefore, Snap &after)
 {
@@ -593,7 +645,7 @@ static bool judged_op(Run &r, const Model &m, Inst &x, size_t opi, const Snap &b
 	const std::string kn = kname[m.kind];
 	std::string opl = op_label(o);
 	auto sigbase = [&]() {
-		std::string vc = (o.t == O_SET || o.t == O_AUTO) ? vclsname[m.opval(o).cls] : (o.t == O_COPYIN ? (o.nullname ? "sibling,name=NULL" : "sibling") : (o.t == O_RESETNULL ? "name=NULL" : "-"));
+		std::string vc = (o.t == O_SET || o.t == O_AUTO) ? vclsname[m.opval(o).cls] : (o.t == O_COPYIN ? (o.nullname ? "sibling,name=NULL" : "sibling") : (o.t == O_RESETNULL ? "name=NULL" : (o.t == O_NOVALALL ? "no-text" : (o.t == O_COPYSELF ? (o.nullname ? "self,name=NULL" : "self") : (o.t == O_ASSIGNSELF ? "self,operator=" : "-")))));
 		return opl + "|" + kn + "." + propsig(m, o) + "|" + vc + "|"; };
 	auto desc = [&]() { return kn + (m.cxx ? " (C++ class)" : " (C struct)") + ": " + m.opname(o); };
 	bool ok = true;
@@ -601,6 +653,8 @@ static bool judged_op(Run &r, const Model &m, Inst &x, size_t opi, const Snap &b
 	r.hint(m.ophint[opi].c_str());
 	asan_error();
 	Snap sib;
+	std::string owntail;       // own-text value: what the tail of the current string is before the call
+	if (o.t == O_SET && m.opval(o).ty == 'T' && m.names[o.name].target >= 0) { const char *cur = own_string(x, m.ppos[m.names[o.name].target]); owntail = (cur && strlen(cur) >= 2) ? cur + 1 : tstr; }
 	int ret = m.raw_op(x, o, &sib);
 	bool asan = asan_error();
 	after = m.snapshot(x);
@@ -636,11 +690,25 @@ static bool judged_op(Run &r, const Model &m, Inst &x, size_t opi, const Snap &b
 			if (ch.size() > 1) { fail("changes-other-property", "more than one property changed:" + diffdesc(m, before, after)); return false; }
 			// an unresolved alias may denote a component of a property (text "x"): only the frame condition is demanded
 			r.count("alias: frame condition checked");
+			if (ch.size() == 1 && !alias_reads_back(r, m, x, n.n, ch[0], after, fail)) return false;
 			return true;
 		}
 		for (size_t i = 0; i < after.v.size(); ++i) if ((int) i != p && after.v[i] != before.v[i]) {
 			fail("changes-other-property", "property '" + m.pname[i] + "' changed: " + before.v[i] + " -> " + after.v[i]); return false; }
 		r.count("frame condition checked");
+		if (n.cls && after.v[p] != before.v[p] && !alias_reads_back(r, m, x, n.n, p, after, fail)) return false;
+		if (o.t == O_SET && m.opval(o).ty == '0') {     // the string interface without any text is "no value": the default
+			if (after.v[p] != m.def.v[p]) { fail("not-default", "no value given, the property reads " + after.v[p] + ", a fresh object has " + m.def.v[p]); return false; }
+			r.count("no-text value: default differential checked");
+			return true;
+		}
+		if (o.t == O_SET && m.opval(o).ty == 'T' && m.poly[p]) { r.count("own-text value on attribute-text property (frame only)"); return true; }   // the value depends on the state by construction
+		if (o.t == O_SET && m.opval(o).ty == 'T') {
+			std::string want = "s:" + qstr(owntail.c_str());
+			if (after.v[p] != want) { fail("readback-differs", "accepted, reads back " + after.v[p] + ", the value handed in was " + want + " (previous value " + before.v[p] + ")"); return false; }
+			r.count("own-text value: read-back checked");
+			return true;
+		}
 		if (o.t == O_RESET) {
 			if (after.v[p] != m.def.v[p]) { fail("not-default", "after reset the property reads " + after.v[p] + ", a fresh object has " + m.def.v[p]); return false; }
 			r.count("reset: default differential checked");
@@ -668,6 +736,14 @@ static bool judged_op(Run &r, const Model &m, Inst &x, size_t opi, const Snap &b
 		return true;
 	case O_RESETNULL:
 		r.count("set(NULL,NULL) accepted");
+		return true;
+	case O_NOVALALL:
+		if (!(after == m.def)) { fail("not-default", "whole-object assignment without a value:" + diffdesc(m, m.def, after)); return false; }
+		r.count("whole object, no value: default differential checked");
+		return true;
+	case O_COPYSELF: case O_ASSIGNSELF:
+		if (cafter != cbefore) { fail("differs", "assigning the object to itself changed it:" + diffdesc(m, before, after)); return false; }
+		r.count("self assignment: object unchanged checked");
 		return true;
 	case O_COPYIN:
 		if (!(after == sib)) { fail("differs", "copy differs from the sibling:" + diffdesc(m, sib, after)); return false; }
@@ -845,7 +921,7 @@ static void ledger_check(Run &r, const Model &m, size_t op) { if (!ledger_live()
 
 // ------------------------------------------------------------------ name matching (mpt_property_match) on synthetic tables
 // every table of 1..3 names over {a,b}^(1..3) x every candidate over {a,b,A}^(0..3) x match length -1..3.
-// Reference: S = entries equal to the candidate in the first mlen characters (whole string for mlen < 0), case-insensitive.
+// Reference: S = entries that start with the candidate (compared in max(mlen, length) characters; whole string for mlen < 0), case-insensitive.
 // S empty => must refuse; S = {e} => e; |S| > 1 => refuse, or the entry returned must equal the candidate completely.
 static void gen_strings(const char *alpha, int minlen, int maxlen, std::vector<std::string> &out)
 {
@@ -859,7 +935,9 @@ static bool match_case(Run &r, const std::vector<std::string> &tn, const std::ve
 	desc += "}";
 	const std::string &c = cands[v[4]]; int mlen = (int) v[5] - 1;
 	std::vector<int> S;
-	for (size_t i = 0; i < nt; ++i) if (mlen < 0 ? !strcasecmp(c.c_str(), tab[i]) : !strncasecmp(c.c_str(), tab[i], mlen)) S.push_back((int) i);
+	// mlen is the MINIMUM number of characters: a longer candidate must be a prefix of the entry with all of its characters
+	size_t cmp = mlen < 0 ? 0 : ((size_t) mlen > c.size() ? (size_t) mlen : c.size());
+	for (size_t i = 0; i < nt; ++i) if (mlen < 0 ? !strcasecmp(c.c_str(), tab[i]) : !strncasecmp(c.c_str(), tab[i], cmp)) S.push_back((int) i);
 	r.hint("match|property_match");
 	int ret = mpt::mpt_property_match(c.c_str(), mlen, tab.data(), nt);
 	r.hint("");
@@ -901,7 +979,8 @@ void mc_explore(Run &r, const std::string &job)
 	if (job == "property_match") { match_job(r, 0); return; }
 	JobSpec js = parse_job(job);
 	Model m(js.kind, js.cxx);
-	for (const char *k : { "nontrivial", "accepted", "refused", "frame condition checked", "reset: default differential checked", "read-back vs independent conversion checked",
+	for (const char *k : { "nontrivial", "accepted", "refused", "frame condition checked", "reset: default differential checked", "read-back vs independent conversion checked", "self assignment: object unchanged checked", "accepted alias reads back the property it set",
+	                       "no-text value: default differential checked", "own-text value: read-back checked", "whole object, no value: default differential checked",
 	                       "independence of previous state checked", "copy-out: equality + independence checked", "get by name/unique prefix == get by position", "ledger: everything released" }) r.require(k);
 	r.additive = false;
 	bool count_low = js.slice == 0 && !js.deep;
